@@ -19,7 +19,7 @@ Record obs := {
 }.
 
 Definition is_down (o : out) : bool := match o with ODownHdr _ _ _ | ODownData _ | ODownTrl | ODownReset => true | _ => false end.
-Definition is_up (o : out) : bool := match o with OUpNew _ _ | OUpHdr _ _ | OUpData _ _ | OUpTrl _ | OUpReset _ => true | _ => false end.
+Definition is_up (o : out) : bool := match o with OUpNew _ _ | OUpHdr _ _ _ | OLeak _ | OUpData _ _ | OUpTrl _ | OUpReset _ => true | _ => false end.
 Definition is_filter (o : out) : bool := match o with OFilterRecv _ _ _ | OFilterSend _ _ => true | _ => false end.
 Definition res_delta (o : out) : Z := match o with ORes d => d | _ => 0 end.
 Definition gauge_delta (o : out) : Z := match o with OGauge d => d | _ => 0 end.
@@ -37,8 +37,9 @@ Definition out_eqb (a b : out) : bool :=
   | ODownData e, ODownData e' => Bool.eqb e e'
   | ODownTrl, ODownTrl | ODownReset, ODownReset | OChoose, OChoose | ODestroy, ODestroy | OLog, OLog | OPanic, OPanic => true
   | OUpNew k r, OUpNew k' r' => (k =? k')%nat && poolres_eqb r r'
-  | OUpHdr k e, OUpHdr k' e' | OUpData k e, OUpData k' e' => (k =? k')%nat && Bool.eqb e e'
-  | OUpTrl k, OUpTrl k' | OUpReset k, OUpReset k' => (k =? k')%nat
+  | OUpHdr k e n, OUpHdr k' e' n' => (k =? k')%nat && Bool.eqb e e' && (n =? n')%nat
+  | OUpData k e, OUpData k' e' => (k =? k')%nat && Bool.eqb e e'
+  | OUpTrl k, OUpTrl k' | OUpReset k, OUpReset k' | OLeak k, OLeak k' => (k =? k')%nat
   | ORes d, ORes d' | OGauge d, OGauge d' => d =? d'
   | OFilterRecv i p v, OFilterRecv i' p' v' => (i =? i')%nat && (p =? p')%nat && verdict_eqb v v'
   | OFilterSend i v, OFilterSend i' v' => (i =? i')%nat && verdict_eqb v v'
@@ -101,7 +102,7 @@ Fixpoint explore_round (fuel : nat) (s : st) (acc : list out) (items : list item
       let deliver :=
         flat_map (fun i =>
           match nth_error items i with
-          | Some (TEv e) => let '(s1, o1) := env_step c e s in explore_round f s1 (acc ++ o1) (remove_nth i items)
+          | Some (TEv e) => let '(s1, o1) := env_step src c e s in explore_round f s1 (acc ++ o1) (remove_nth i items)
           | Some (TUntil p) => explore_round f s acc (remove_nth i items)   (* hints are only honoured as singleton rounds *)
           | None => []
           end) (List.seq 0 (length items)) in
@@ -115,7 +116,7 @@ Fixpoint explore_round (fuel : nat) (s : st) (acc : list out) (items : list item
    record that follows the sleep of doRetry), the worker may have woken at any round boundary *)
 Definition wake_variants (x : option (st * list out)) : list (option (st * list out)) :=
   match x with
-  | Some (s, acc) => if sleeping s then [x; Some (fst (env_step c EvWake s), acc)] else [x]
+  | Some (s, acc) => if sleeping s then [x; Some (fst (env_step src c EvWake s), acc)] else [x]
   | None => [None]
   end.
 
@@ -125,7 +126,7 @@ Fixpoint explore (rounds : list (list item)) (cur : list (option (st * list out)
                              | Some (s, acc) =>
                                match run_worker 400 s acc with
                                | Some (s1, acc1) =>
-                                 if sleeping s1 then [Some (s1, acc1); run_worker 400 (fst (env_step c EvWake s1)) acc1] else [Some (s1, acc1)]
+                                 if sleeping s1 then [Some (s1, acc1); run_worker 400 (fst (env_step src c EvWake s1)) acc1] else [Some (s1, acc1)]
                                | None => [None]
                                end
                              | None => [None] end) (flat_map wake_variants cur)
